@@ -28,6 +28,11 @@ def main():
     if oracle is None:
         print(f"no executable contract registered for {a.fn}")
         return 4
+    known = []
+    kf = os.path.join(os.path.dirname(os.path.dirname(os.path.abspath(__file__))), "known_findings.json")
+    if os.path.exists(kf):
+        known = [k for k in json.load(open(kf)) if k.get("status") == "known" and k.get("oracle_match")]
+    known_hits = {}
     rng = random.Random(a.seed)
     t0 = time.time()
     n = 0
@@ -40,6 +45,21 @@ def main():
             json.dump({"inputs": common.jsonable(inputs), "case": n}, open(a.out + ".current", "w"))
             f = oracle.check(inputs)
             if f is not None:
+                # a failure that is a listed known finding (same clause, inputs in the listed region) is reported as such and
+                # the hunt goes on: a different violation of the same property is still reported
+                hit = None
+                for k in known:
+                    m = k["oracle_match"]
+                    if m.get("clause_contains", "") in f["clause"] and all(inputs.get(kk) == vv for kk, vv in m.get("inputs", {}).items()):
+                        hit = k
+                        break
+                if hit is not None:
+                    known_hits.setdefault(hit["id"], {"what": hit["what"], "count": 0, "example": common.jsonable(inputs)})
+                    known_hits[hit["id"]]["count"] += 1
+                    if time.time() - t0 > budget:
+                        break
+                    continue
+            if f is not None:
                 rec = {"property": a.prop, "obligation": a.obligation, "function": a.fn, "oracle": a.fn,
                        "reproduced": True, "clause": f["clause"], "inputs": common.jsonable(f["inputs"]),
                        "observed": common.jsonable(f["observed"]), "expected": common.jsonable(f["expected"]),
@@ -47,6 +67,8 @@ def main():
                        "how": f"/venv/bin/python /verif/harness/run_replay.py {a.out}"}
                 json.dump(rec, open(a.out, "w"), indent=1)
                 os.unlink(a.out + ".current")
+                for kid, h in known_hits.items():
+                    print("KNOWN-FINDING-HIT " + json.dumps({"id": kid, "what": h["what"], "count": h["count"], "example": h["example"]}))
                 print(f"failing input found after {n} cases: {f['clause']}")
                 return 1
             if time.time() - t0 > budget:
@@ -56,6 +78,8 @@ def main():
         return 3
     if os.path.exists(a.out + ".current"):
         os.unlink(a.out + ".current")
+    for kid, h in known_hits.items():
+        print("KNOWN-FINDING-HIT " + json.dumps({"id": kid, "what": h["what"], "count": h["count"], "example": h["example"]}))
     print(f"no failing input in {n} cases ({time.time() - t0:.1f}s)")
     return 0
 
